@@ -12,27 +12,27 @@ import (
 // OpOptions steer the operation generator. The zero value of the "risky" switches keeps operations inside
 // the domain on which the gateway is expected to be right; each switch opens one of the shapes DESIGN §C01 lists.
 type OpOptions struct {
-	MaxDepth       int
-	Aliases        bool
-	InlineFrags    bool
-	NamedFrags     bool
-	Typename       bool
-	Variables      bool
-	Mutation       bool
-	ForceMutation  bool
-	VarDefaults    bool // client-declared default values relied upon
-	DirectiveVars  bool // @skip/@include(if: $v)
-	Directives     bool // @skip/@include with literal values
-	DupKeys        bool // the same response key twice in one selection set
-	AliasID        bool // aliases named "id" / id under another alias
-	NodeRoot       bool // node(id:) as a client root field
-	RootTypename   bool
-	FragReuse      bool // one named fragment spread at two places
+	MaxDepth             int
+	Aliases              bool
+	InlineFrags          bool
+	NamedFrags           bool
+	Typename             bool
+	Variables            bool
+	Mutation             bool
+	ForceMutation        bool
+	VarDefaults          bool // client-declared default values relied upon
+	DirectiveVars        bool // @skip/@include(if: $v)
+	Directives           bool // @skip/@include with literal values
+	DupKeys              bool // the same response key twice in one selection set
+	AliasID              bool // aliases named "id" / id under another alias
+	NodeRoot             bool // node(id:) as a client root field
+	RootTypename         bool
+	FragReuse            bool // one named fragment spread at two places
 	UnionPartial         bool // union selections that leave a member type without a selected id (findings C01-b/c)
 	HelperDirectives     bool // @skip/@include on a client-selected id/__typename (finding C01-l)
 	HelperNextToFragment bool // client selects id/__typename at a level that also uses fragments (finding C01-k)
-	IDs            []string
-	IDsByType      map[string][]string
+	IDs                  []string
+	IDsByType            map[string][]string
 }
 
 type GenOp struct {
